@@ -446,6 +446,10 @@ impl Engine for WatchEngine {
         l
     }
 
+    fn finish(&mut self, _run: &mut Run) {
+        let _ = std::fs::remove_dir(std::env::temp_dir().join(format!("amh-watch-{}", std::process::id())));
+    }
+
     fn exec_case(&mut self, lines: &[String], rec: &mut CaseRec) {
         self.counter += 1;
         let base = std::env::temp_dir().join(format!("amh-watch-{}", std::process::id())).join(format!("c{}", self.counter));
